@@ -134,6 +134,26 @@ pub fn derive_paths(tree: &MNode, ch: &mut Choices, opts: PathOpts) -> Vec<Strin
         };
         out.push(s);
     }
+    // the list is a set as far as the meaning goes: any order, children before parents, entries of
+    // one subtree interleaved with those of another, and repeated entries are all legitimate
+    if out.len() >= 2 {
+        match ch.pick(8) {
+            0 => out.reverse(),
+            1 | 2 => {
+                for i in (1..out.len()).rev() {
+                    let j = ch.pick(i + 1);
+                    out.swap(i, j);
+                }
+            }
+            3 => {
+                let i = ch.pick(out.len());
+                let j = ch.pick(out.len() + 1);
+                let dup = out[i].clone();
+                out.insert(j, dup);
+            }
+            _ => {}
+        }
+    }
     if opts.no_dollar && ch.chance(12) {
         let s = match ch.pick(6) {
             0 => "a.b".to_string(),
@@ -374,4 +394,20 @@ pub fn derive_arbitrary_selection(tree: &MNode, ch: &mut Choices) -> Map<String,
             o
         }
     }
+}
+
+/// The same selection with the members of every object in reverse order (arrays untouched).
+pub fn reverse_members(sel: &serde_json::Map<String, serde_json::Value>) -> serde_json::Map<String, serde_json::Value> {
+    fn rev(v: &serde_json::Value) -> serde_json::Value {
+        match v {
+            serde_json::Value::Object(o) => serde_json::Value::Object(reverse_members(o)),
+            serde_json::Value::Array(a) => serde_json::Value::Array(a.iter().map(rev).collect()),
+            other => other.clone(),
+        }
+    }
+    let mut out = serde_json::Map::new();
+    for (k, v) in sel.iter().rev() {
+        out.insert(k.clone(), rev(v));
+    }
+    out
 }
